@@ -121,7 +121,7 @@ func wrap2(l *zerolog.Logger, mech, k int) {
 // CallerSkipFrame(k) / Caller(k) / CallerWithSkipFrameCount(2+k) move the site exactly k frames up.
 func VH_C19_skip_frames() {
 	capture()
-	mech := zzverif.Choice(8)
+	mech := zzverif.Choice(10)
 	k := zzverif.Choice(3)
 	base := zerolog.New(&sink{})
 	var l zerolog.Logger
@@ -133,6 +133,13 @@ func VH_C19_skip_frames() {
 		l, wmech = base, 3
 	case 5:
 		l, wmech = base.With().Caller().Logger(), 4
+	case 8:
+		// a child derived with ANOTHER skip count must not change what its parent reports
+		l = base.With().Caller().Logger()
+		_ = l.With().CallerWithSkipFrameCount(zerolog.CallerSkipFrameCount + 3).Logger()
+	case 9:
+		l = base.With().CallerWithSkipFrameCount(zerolog.CallerSkipFrameCount + k).Logger()
+		_ = l.With().Caller().Logger()
 	case 6, 7:
 		// the global CallerSkipFrameCount, adjusted AFTER the logger was built (package-level
 		// logger, global set later in main): read when the event is finalized
@@ -156,10 +163,14 @@ func VH_C19_skip_frames() {
 		_, ln2 := zzverif.Here()
 		lineH = ln2 + 2
 		wrap2(&l, 2, 0)
-	} else if mech == 6 {
+	} else if mech == 6 || mech == 9 {
 		_, ln2 := zzverif.Here()
 		lineH = ln2 + 2
 		wrap2(&l, 2, 0)
+	} else if mech == 8 {
+		_, ln2 := zzverif.Here()
+		lineH = ln2 + 2
+		wrap2(&l, 2, k)
 	} else if mech == 7 {
 		_, ln2 := zzverif.Here()
 		lineH = ln2 + 2
